@@ -126,6 +126,18 @@ theorem iso_sound_partial (g1 g2 : MG) (fl : List (Nd × Nd)) (π : Wire → Wir
   obtain ⟨m', a, b, h1, h2, h3, h4⟩ := isoCheck_nodeMatch g1 g2 fl hc m hm
   exact ⟨a, b, h2, by simpa [h1] using h3, h4⟩
 
+/-- the D22 pair and the tail-swap pair are unitary; compiled from |00⟩ with the verified tableau gates of C07
+    (`Tab.runOps`), their stabilizer states differ, also after exchanging the two qubits — so the refutation holds at
+    the level of compiled states, not only of wire sequences (kernel-checked) -/
+theorem iso_witness_states_differ : statesDiffer2 d22A d22B = true ∧ statesDiffer2 tailA tailB = true := by
+  decide +kernel
+
+/-- **the coded check is reflexive**: the identity map passes it on any DAG with distinct node names, so a circuit and
+    its copy are reported isomorphic -/
+theorem iso_reflexive (g : MG) (hnd : nodupNd (g.nodes.map (·.1)) = true)
+    (hop : ∀ n ∈ g.nodes.map (·.1), (g.opOf n).isSome = true) : isoCheck g g (idMapOf g) = true :=
+  isoCheck_refl g hnd hop
+
 /-- a positive answer of the model always exhibits a map that passes the full check (the search is never trusted) -/
 theorem iso_answer_is_checked (g1 g2 : MG) (h : isoGraphs g1 g2 = true) :
     ∃ f, isoCheck g1.addControlTarget g2.addControlTarget f = true := isoGraphs_witness g1 g2 h
@@ -149,6 +161,7 @@ def demoG : MG := match MG.build demo with | .ok g => g.addControlTarget | .erro
 def idMap : List (Nd × Nd) := demoG.nodes.map fun p => (p.1, p.1)
 
 example : isoCheck demoG demoG idMap = true := by decide +kernel
+example : nodupNd (demoG.nodes.map (·.1)) = true ∧ ∀ n ∈ demoG.nodes.map (·.1), (demoG.opOf n).isSome = true := by decide +kernel
 example : UniqueOut demoG := by unfold UniqueOut; decide +kernel
 example : ∀ n ∈ demoG.nodes.map (·.1), (applyMap idMap n).getD n = n := by decide +kernel
 
